@@ -74,6 +74,7 @@ func newSim(g *Gen, mapRows []uint8) *Sim {
 		s.insts = append(s.insts, &Inst{label: fmt.Sprintf("map:P:%d", r), acc: mpart, mp: mpart})
 	}
 	emit("new")
+	phNew()
 	return s
 }
 
@@ -257,6 +258,7 @@ func (s *Sim) applyBlockData(delIdx []int, delHashes []u.Hash, proof u.Proof, ad
 		if r != "ok" || merr != nil {
 			emit("obs %s modifyfail %s", in.label, r)
 		}
+		s.phModify(in, myAdds, r, merr)
 	}
 	for _, j := range delIdx {
 		s.alive[j] = false
@@ -307,6 +309,7 @@ func (s *Sim) undoLast() {
 		if r != "ok" || uerr != nil {
 			emit("obs %s undofail %s", in.label, r)
 		}
+		s.phUndo(in, rec, r, uerr)
 	}
 	if s.client != nil {
 		s.clientUndo(rec)
